@@ -6,7 +6,7 @@ Modelled (MediaMTX's own logic):
   the charset regexp (digits, letters, `_`, `-`, `/`, `.`; anchored) is modelled as a per-byte test (exercised by the run);
 * `conf.FindPathConf`: static map lookup **before** the name is validated, then validation, then the regexp
   confs in the code's order (all/all_others last, otherwise by name) — whether a conf's regexp matches the
-  name is an oracle column;  `findPathConfFixed` validates first;
+  name is an oracle column;  `findPathConfFixed` = the alternative order (validate first; not adopted);
 * `recordstore.CommonPath`, `filepath.Clean` / `filepath.Abs` on `/`-separated paths (lexical), the API's
   `absolutePathInside` (a *string* prefix test), and the composition the delete-segment handler and
   `FindSegments` perform (`deleteTarget`, `walkRoot`);
@@ -110,7 +110,9 @@ def findPathConf (confs : List ConfEntry) (name : Bytes) : FindRes :=
       | some c => .found c.key
       | none => .notConfigured
 
-/-- proposed fix: validate the name before the static lookup. -/
+/-- alternative order (validate the name before the static lookup).  Not adopted: property C14 wants a
+name that is exactly a configured key to resolve to that configuration; kept for the theorem that shows
+what the alternative would buy. -/
 def findPathConfFixed (confs : List ConfEntry) (name : Bytes) : FindRes :=
   match isValidPathName name with
   | some e => .invalid e
